@@ -230,7 +230,8 @@ class BufScript:
         ops = []
         for _ in range(ncalls):
             r = self.rng.random()
-            if r < 0.30: ops += [("T", 1)]
+            if r < 0.22: ops += [("T", 1)]
+            elif r < 0.36: ops += [("k", 0), ("T", 0)]      # include pattern: pop back to the including buffer
             elif r < 0.50: ops += [("i", self.rng.randrange(self.nf)), ("T", 0)]
             elif r < 0.72: ops += [("n", self.rng.randrange(self.nf)), ("w", 0), ("T", 0)]
             elif r < 0.88: ops += [(self.rng.choice("syz"), self.rng.randrange(self.nf)), ("T", 0)]
